@@ -5,6 +5,7 @@ import PsProofs.IterRun
 import PsProofs.Wheel
 import PsProofs.PreSieve
 import PsProofs.Segments
+import PsProofs.SegmentCorrect
 import Mathlib.Tactic.NormNum.Prime
 import Mathlib.Tactic.IntervalCases
 import PsModel.Generated.Locks
@@ -161,6 +162,26 @@ theorem C01_crossoff_covers_segment (stop p L : Nat) (hp : Nat.gcd (p % 30) 30 =
   ⟨fun h hg => crossoff_covers30 stop p L hp hp0 hL hnw
       (Nat.lt_of_le_of_lt (Nat.mul_le_mul_left p (by omega)) hnw2) hstop s h x hpx hg hn,
    fun h hg => crossoff_covers210 stop p L hp hp0 hL hnw hnw2 hstop s h x hpx hg hn⟩
+
+/-- **C01 (segment correctness, number level)** the composition of the layers above, for EVERY segment start L ≡ 0 (mod 30), byte offset o,
+    bit b, stop < 2^64 and EVERY routing of the sieving primes to the 30-wheel (EratSmall/EratMedium)
+    or the 210-wheel (EratBig): the number n = L + 30·o + offs[b] (163 < n ≤ stop) is prime iff its bit
+    after PreSieve::preSieve's AND of the 16 regenerated tables is 1 and no sieving prime p (163 < p,
+    p² ≤ stop) crosses it off, where "crosses off" means: Wheel::addSievingPrime (real wrapping
+    arithmetic, regenerated INIT tables) stores p and a walk over the regenerated cross-off rows
+    reaches n.  What is left between this theorem and "the sieved byte array equals the primes" is
+    scheduling only: that the three cross-off loops perform exactly these walks inside every segment
+    and that every prime ≤ √segmentHigh has been handed to addSievingPrime before (tied by the
+    segment / cross streams). -/
+theorem C01_segment_numbers_correct (big : Nat → Bool) (stop L o b : Nat) (hL : L % 30 = 0) (hb : b < 8)
+    (h163 : 163 < L + 30 * o + PreSieve.offs.getD b 0) (hns : L + 30 * o + PreSieve.offs.getD b 0 ≤ stop)
+    (hstop : stop < U64) (hL6 : L + 6 < U64) :
+    (L + 30 * o + PreSieve.offs.getD b 0).Prime ↔
+      ((PreSieve.preSieveByte PreSieve.allTables L o).testBit b = true ∧
+       ∀ p, p.Prime → 163 < p → p * p ≤ stop →
+         ¬ (if big p then CrossedOff210 stop p L (L + 30 * o + PreSieve.offs.getD b 0)
+            else CrossedOff30 stop p L (L + 30 * o + PreSieve.offs.getD b 0))) :=
+  segment_number_correct big stop L o b hL hb h163 hns hstop hL6
 
 /-- **C01 (segments tile the interval)** for every sieve interval 7 ≤ start ≤ stop < 2^64, every L1 size, sieve size setting and value
     of the floating-point factors (EratCfg): the segments (low, bytes) that Erat::init + repeated
